@@ -522,8 +522,8 @@ func runEoseGate(c *core.Ctx) {
 			continue
 		}
 		storesTrue := false
-		an.Instrs(f, func(in ssa.Instruction) {
-			if st, ok := in.(*ssa.Store); ok && isConstBool(st.Val, true) && strings.HasPrefix(an.PathOf(st.Addr), "recv.eose[") {
+		an.Region(f, nil, func(o an.Occ) {
+			if st, ok := o.In.(*ssa.Store); ok && isConstBool(an.Unwrap(o.Resolve(st.Val)), true) && strings.HasPrefix(o.Path(st.Addr), "recv.eose[") {
 				storesTrue = true
 			}
 		})
@@ -898,11 +898,11 @@ func runOkAgg(c *core.Ctx) {
 	t, _, n, ok := an.NoSubject().FuncBoolMeaning(ready, 0, nil, nil)
 	_ = t
 	contains := false
-	for _, call := range calls(ready) {
-		if strings.HasPrefix(an.CalleeName(call.Common()), "slices.Contains") && an.IsNilConst(call.Common().Args[1]) {
+	an.Region(ready, nil, func(o an.Occ) {
+		if call, isCall := o.In.(*ssa.Call); isCall && strings.HasPrefix(an.CalleeName(&call.Call), "slices.Contains") && an.IsNilConst(an.Unwrap(o.Resolve(call.Call.Args[1]))) {
 			contains = true
 		}
-	}
+	})
 	c.CountPaths(n)
 	c.Check(ok && contains, nil, fname(c, ready), "ready", P.Pos(ready.Pos()), "Ready ⇔ the slot exists and holds a reply of every child (no nil entry)", "Ready does not require a reply of every child: the aggregate is sent before all children answered")
 }
